@@ -261,8 +261,9 @@ def unary : Bits → Option (Nat × Bits)
   | false :: r => some (0, r)
   | true :: r => (unary r).map (fun p => (p.1 + 1, p.2))
 
-/-- `deserialize_hml(ser, m)`: label length `n` (none = raises), and the iterations of the unary loop -/
-def readLabel (bits : Bits) (m : Int) : Option Nat × Nat :=
+/-- the constructor branches of `deserialize_hml(ser, m)` (everything before its final `if n > m: raise`): label length `n`
+(none = raises), and the iterations of the unary loop -/
+def readLabelRaw (bits : Bits) (m : Int) : Option Nat × Nat :=
   let l := bitLength m.natAbs
   match bits with
   | [] => (none, 0)
@@ -272,12 +273,21 @@ def readLabel (bits : Bits) (m : Int) : Option Nat × Nat :=
     | some (n, rest) => (if rest.length < n then none else some n, n)
   | true :: [] => (none, 0)
   | true :: false :: r =>
-    if l == 0 || r.length < l then (none, 0) else
+    if l == 0 then (some 0, 0) else             -- `(#<= 0)` is a zero-width field (fix 602ccc8)
+    if r.length < l then (none, 0) else
     let n := natOfBits (r.take l)
     (if (r.drop l).length < n then none else some n, 0)
   | true :: true :: [] => (none, 0)
   | true :: true :: _ :: r =>
-    if l == 0 || r.length < l then (none, 0) else (some (natOfBits (r.take l)), 0)
+    if l == 0 then (some 0, 0) else
+    if r.length < l then (none, 0) else (some (natOfBits (r.take l)), 0)
+
+/-- `deserialize_hml(ser, m)` with the `{n <= m}` test it ends with since the repair: a label longer than the remaining key
+raises (after the unary loop has run) -/
+def readLabel (bits : Bits) (m : Int) : Option Nat × Nat :=
+  match readLabelRaw bits m with
+  | (some n, it) => if (n : Int) > m then (none, it) else (some n, it)
+  | (none, it) => (none, it)
 
 inductive DRes where
   | done (steps : Nat)       -- returned normally
